@@ -380,6 +380,10 @@ func (e *Entry) checkErrors(f func(error)) {
 	for _, e := range e.Dir {
 		e.checkErrors(f)
 	}
+	if e.RPC != nil {
+		e.RPC.Input.checkErrors(f)
+		e.RPC.Output.checkErrors(f)
+	}
 	for _, err := range e.Errors {
 		f(err)
 	}
